@@ -283,15 +283,27 @@ def check_samples(acc, seq, size, offset):
         acc.violation("no-raise", site, case, observed="raised %s: %s" % (type(ex).__name__, ex))
         return
     tmax = max(Fr(e) for _, e in seq)
-    n = int(tmax / Fr(size))          # floor
-    want_t = [Fr(k) * Fr(size) + Fr(offset) for k in range(n)]
-    if [Fr(t) for t in times] != want_t:
-        acc.violation("sample-times", site, case, observed=list(times), expected=[float(t) for t in want_t])
-        return
+    dyadic = Fr(size).denominator & (Fr(size).denominator - 1) == 0 and Fr(size).denominator <= 1024
+    if dyadic:
+        n = int(tmax / Fr(size))          # floor
+        want_t = [Fr(k) * Fr(size) + Fr(offset) for k in range(n)]
+        if [Fr(t) for t in times] != want_t:
+            acc.violation("sample-times", site, case, observed=list(times), expected=[float(t) for t in want_t])
+            return
+    else:
+        # decimal sample size (the documented default 0.1): the grid is built in single precision, so the returned
+        # times are only required to be the nominal grid to 1e-6; what the property fixes is that each RETURNED
+        # time carries the label of the interval containing THAT time
+        n = int(float(tmax) / size)
+        if len(times) != n or any(abs(t - (k * size + offset)) > 1e-6 for k, t in enumerate(times)):
+            acc.violation("sample-times", site, case, observed=list(times),
+                          expected="k*%g+%g to 1e-6, k<%d" % (size, offset, n))
+            return
+        want_t = [Fr(t) for t in times]
     want = [model_interp(seq, labels, t) for t in want_t]
     acc.outcome(tuple(got))
     if list(got) != want:
-        acc.violation("sample-label", site, case, observed=list(got), expected=want)
+        acc.violation("sample-label", site, case, observed={"times": list(times), "labels": list(got)}, expected=want)
 
 
 def shard_interp(arg):
@@ -428,6 +440,10 @@ def run(run):
     sizes = [(0.5, 0.0), (0.25, 0.0), (1.0, 0.0), (0.5, 0.25), (1.0, 0.5)]
     run.explore("interpolate/samples", mod, "shard_interp",
                 [(ch, gpts, 4 if thorough else 3, sizes) for ch in core.chunks(iseqs, 32)])
+    dpts = [round(base + k / 10.0, 10) for k in (0, 3, 7, 12, 14, 19, 23)]
+    dseqs = interval_seqs(dpts, 3)
+    run.explore("intervals_to_samples on the default 0.1 s grid", mod, "shard_interp",
+                [(ch, [dpts[0]], 1, [(0.1, 0.0), (0.1, 0.05)]) for ch in core.chunks(dseqs, 32)])
     bl = [base + v for v in (0.0, 0.25, 0.5, 0.500004, 0.500016, 0.75, 1.0, 1.123456789, 1.1234599, 2.0, 2.000006)]
     blists = [b for b in lib.subsets(bl, 6 if thorough else 5, 2)]
     run.explore("boundaries<->intervals", mod, "shard_bounds", core.chunks(blists, 16))
